@@ -28,7 +28,7 @@ def run(prop, tier, seed, wd, t0):
         jobs.append(macroh.select_job('sel.p3_7', (3, 7), nin=3, nbody=2, tags=tags, timeout=1500))
         jobs.append(macroh.select_job('sel.p5_5', (5, 5), nin=3, nbody=2, tags=tags, timeout=1500))
         jobs.append(macroh.select_job('loop.two_passes', (3, 7), passes=2, tags=tags, timeout=1500))
-        jobs.append(macroh.select_job('loop.three_passes_1def', (5,), passes=3, nin=2, nbody=2, tags=tags, timeout=1500))
+        jobs.append(macroh.select_job('loop.three_passes_1def', (5,), passes=3, nin=2, nbody=1, tags=tags, timeout=1500))
 
     def extra(out):
         try:
